@@ -896,7 +896,41 @@ theorem C14_id_types_int_str [Div α] [ScalarFns α] (cfg : Config) (raw : List 
   refine ⟨h1, ?_⟩
   unfold setData
   rw [h1]
-  simp only [List.filterMap_map, Function.comp_def]
+  simp only [rawObservables, List.filterMap_map, Function.comp_def]
+
+/-- **C14 (data type of observable names and of the values of the name maps — 9784f5e).** The observable
+    column and the values of `output_observable_dict` / `covariate_dict` are used in their string form:
+    writing them as strings of the same characters (`7 ↦ "7"`) gives literally the same problem. (Before
+    9784f5e the maps were validated against the raw column and a numeric observable column silently lost
+    every measurement.) -/
+theorem C14_observable_types [Div α] [ScalarFns α] (cfg : Config) (raw : List (RawRow α)) :
+    setData { cfg with obsMap := cfg.obsMap.map (·.map (fun p => (p.1, .str p.2.key))),
+                       covMap := cfg.covMap.map (·.map (fun p => (p.1, .str p.2.key))) }
+      (raw.map (fun r => { r with obs := r.obs.map (fun b => .str b.key) })) = setData cfg raw := by
+  have h1 : ∀ hd hu, cleanData hd hu (raw.map (fun r => { r with obs := r.obs.map (fun b => RawId.str b.key) })) =
+      cleanData hd hu raw := by
+    intro hd hu
+    unfold cleanData
+    rw [List.map_map]
+    apply List.map_congr_left
+    intro r _
+    rcases hr : r.obs with _ | b <;> simp [clean, RawId.key, hr]
+  have h2 : rawObservables (raw.map (fun r => { r with obs := r.obs.map (fun b => RawId.str b.key) })) =
+      rawObservables raw := by
+    unfold rawObservables
+    rw [List.filterMap_map]
+    congr 1
+    apply List.filterMap_congr
+    intro r _
+    rcases hr : r.obs with _ | b <;> simp [RawId.key, hr]
+  have h3 : ∀ m : Option (List (String × RawId)),
+      strMap (m.map (·.map (fun p => (p.1, RawId.str p.2.key)))) = strMap m := by
+    intro m
+    rcases m with _ | l
+    · rfl
+    · simp [strMap, RawId.key, List.map_map, Function.comp_def]
+  unfold setData
+  simp only [h1, h2, h3]
 
 /-- integer IDs vs. the same numbers as floats: keys `"n"` become `"n.0"`, an injective relabelling -/
 theorem C14_id_types_int_flt (hd hu : Bool) (raw : List (RawRow α))
@@ -1300,11 +1334,11 @@ theorem C14_set_data [Div α] [ScalarFns α] (cfg : Config) (raw : List (RawRow 
     (∀ c ∈ P.covNames, ∃ b, P.covMap.lookup c = some b ∧ ∀ i ∈ P.ids, (specCov P.data b i).length = 1) := by
   unfold setData at h
   simp only at h
-  rcases ho : checkObsMap cfg.outputs (unique (List.filterMap (fun x => x.obs) raw)) cfg.obsMap with x | om
+  rcases ho : checkObsMap cfg.outputs (rawObservables raw) (strMap cfg.obsMap) with x | om
   · rw [ho] at h; cases h
   · rw [ho] at h
     simp only at h
-    rcases hcm : checkCovMap cfg.covNames (unique (List.filterMap (fun x => x.obs) raw)) cfg.covMap with x | cm
+    rcases hcm : checkCovMap cfg.covNames (rawObservables raw) (strMap cfg.covMap) with x | cm
     · rw [hcm] at h; cases h
     · rw [hcm] at h
       simp only at h
@@ -1488,6 +1522,116 @@ theorem C14_posterior_irrelevant_rows [ScalarFns α] (lg : Legacy) (P : Problem 
   rcases selectIds lg P sel with x | il
   · rfl
   · simp only [hc, he]
+
+/-! ## which data goes to which output; the order and extra entries of the user's name map -/
+
+theorem filterMap_lookup_blocks {β : Type} (m : List (String × String)) (g : String → β) :
+    ∀ (os : List String), (∀ o ∈ os, ∃ b, m.lookup o = some b) →
+      (os.filterMap (fun o => (m.lookup o).map g)).length = os.length ∧
+      ∀ k (hk : k < os.length), ∃ b, m.lookup os[k] = some b ∧
+        (os.filterMap (fun o => (m.lookup o).map g))[k]? = some (g b) := by
+  intro os
+  induction os with
+  | nil => intro _; exact ⟨rfl, fun k hk => absurd hk (Nat.not_lt_zero _)⟩
+  | cons o os ih =>
+    intro h
+    obtain ⟨b, hb⟩ := h o List.mem_cons_self
+    obtain ⟨h1, h2⟩ := ih (fun o' ho' => h o' (List.mem_cons_of_mem _ ho'))
+    have hc : (o :: os).filterMap (fun o => (m.lookup o).map g) =
+        g b :: os.filterMap (fun o => (m.lookup o).map g) := by
+      rw [List.filterMap_cons, hb]; rfl
+    rw [hc]
+    refine ⟨by simp [h1], fun k hk => ?_⟩
+    cases k with
+    | zero => exact ⟨b, by simpa using hb, by simp⟩
+    | succ k =>
+      obtain ⟨b', hb', hk'⟩ := h2 k (by simpa using hk)
+      exact ⟨b', by simpa using hb', by simpa using hk'⟩
+
+/-- **C14 (the k-th data block belongs to the k-th output).** The likelihood pairs the k-th list of
+    times / observations with the k-th model output and the k-th error model; the controller fills
+    position `k` with the measurements of the observable that the map assigns to `outputs()[k]` — the
+    order of the mechanistic model's outputs, not the order in which the user wrote the map. -/
+theorem C14_data_follows_outputs [ScalarFns α] (P : Problem α) (i : String)
+    (h : ∀ o ∈ P.outputs, ∃ b, P.obsMap.lookup o = some b) :
+    (specData P i).length = P.outputs.length ∧
+    ∀ k (hk : k < P.outputs.length), ∃ b, P.obsMap.lookup P.outputs[k] = some b ∧
+      (specData P i)[k]? = some ⟨(sortByTime (specRows P.data i b)).map (·.1),
+        (sortByTime (specRows P.data i b)).map (·.2)⟩ := by
+  unfold specData
+  exact filterMap_lookup_blocks P.obsMap _ P.outputs h
+
+theorem outputsData_map [ScalarFns α] (lg : Legacy) (P : Problem α) (m' : List (String × String)) (i : String) :
+    ∀ os, (∀ o ∈ os, m'.lookup o = P.obsMap.lookup o) →
+      outputsData lg { P with obsMap := m' } i os = outputsData lg P i os := by
+  intro os
+  induction os with
+  | nil => intro _; rfl
+  | cons o os ih =>
+    intro h
+    unfold outputsData
+    rw [ih (fun o' ho' => h o' (List.mem_cons_of_mem _ ho'))]
+    simp only [h o List.mem_cons_self]
+
+theorem createLLs_map [ScalarFns α] (lg : Legacy) (P : Problem α) (m' : List (String × String))
+    (h : ∀ o ∈ P.outputs, m'.lookup o = P.obsMap.lookup o) :
+    ∀ il shared, createLLs lg { P with obsMap := m' } il shared = createLLs lg P il shared := by
+  intro il
+  induction il with
+  | nil => intro shared; rfl
+  | cons i is ih =>
+    intro shared
+    unfold createLLs
+    have h1 : ∀ sh, createLL lg { P with obsMap := m' } i sh = createLL lg P i sh := by
+      intro sh; unfold createLL
+      have := outputsData_map lg P m' i P.outputs h
+      simp only at this ⊢
+      rw [this]
+    have h2 : setRegimen { P with obsMap := m' } i shared = setRegimen P i shared := rfl
+    simp only [h1, h2, ih]
+
+/-- **C14 (the map is a dictionary: order and extra entries are irrelevant).** Any name map that
+    assigns the same observable to every model output — the same entries written in another order,
+    or with additional keys that are no outputs — gives the same posterior. -/
+theorem C14_map_order_irrelevant [ScalarFns α] (lg : Legacy) (P : Problem α) (m' : List (String × String))
+    (h : ∀ o ∈ P.outputs, m'.lookup o = P.obsMap.lookup o)
+    (sel : Option RawId) (shared : Option (List (Event α))) :
+    getLogPosterior lg { P with obsMap := m' } sel shared = getLogPosterior lg P sel shared := by
+  have hc := createLLs_map lg P m' h
+  unfold getLogPosterior
+  have hs : selectIds lg { P with obsMap := m' } sel = selectIds lg P sel := rfl
+  rw [hs]
+  rcases selectIds lg P sel with x | il
+  · rfl
+  · simp only [hc]
+
+/-- reordering the entries of a map with distinct keys does not change any lookup -/
+theorem lookup_perm (m m' : List (String × String)) (hp : m.Perm m') :
+    (m.map Prod.fst).Nodup → ∀ o, m'.lookup o = m.lookup o := by
+  induction hp with
+  | nil => intro _ _; rfl
+  | cons x _ ih =>
+    intro hn o
+    obtain ⟨xk, xv⟩ := x
+    simp only [List.map_cons, List.nodup_cons] at hn
+    rw [List.lookup_cons, List.lookup_cons, ih hn.2 o]
+  | swap x y l =>
+    intro hn o
+    obtain ⟨xk, xv⟩ := x
+    obtain ⟨yk, yv⟩ := y
+    simp only [List.map_cons, List.nodup_cons, List.mem_cons, not_or] at hn
+    have hxy : yk ≠ xk := hn.1.1
+    simp only [List.lookup_cons]
+    by_cases h1 : o = xk
+    · have h2 : (o == yk) = false := by
+        simp only [beq_eq_false_iff_ne, ne_eq]; intro h; exact hxy (h.symm.trans h1)
+      have h1' : (o == xk) = true := by simp [h1]
+      simp only [h1', h2]
+    · have h1' : (o == xk) = false := by simp [h1]
+      simp only [h1']
+  | trans h1 _ ih1 ih2 =>
+    intro hn o
+    rw [ih2 ((h1.map Prod.fst).nodup_iff.mp hn) o, ih1 hn o]
 
 /-! ## every frame that describes a posterior yields it (the code as it is) -/
 
